@@ -26,7 +26,8 @@ RULE = ("Exhaustive stratum: variable {python_version, python_full_version} x op
         "in/not in lists; every simple specifier (single comparison, ~=, ==X.*, !=V, !=X.*, pairs rendering as ~= or "
         "==) as from_specifier input for both names; decided on the interpreter grid X in {2,3,4}, Y in 0..13, Z in "
         "{0,1,2,5,9,10,18} plus the bounds' neighbours. Then the same monitors on all bridge calls issued while "
-        "seeded marker pairs are combined. Non-trivial/distinct: (variable, operator, operand shape, direction).")
+        "seeded marker pairs are combined. Non-trivial/distinct: (variable, operator, operand shape, direction)."
+        " History: the separately parsed orientation twin of each atom is evaluated first at the monitor's own values.")
 ASSUMPTIONS = [
     "`value in specifier` is the library's own membership (tied to PEP 440 by C04); interpreters are final releases X.Y.Z",
     "python_version of an interpreter X.Y.Z is 'X.Y'",
